@@ -50,6 +50,11 @@ def _A():
     return absint
 
 
+# standard-library namespaces whose functions carry program semantics: a call that reaches the generic
+# (uninterpreted) path is an analysis gap, and negative verdicts of the run are then reported as undecided
+GAP_NAMESPACES = {"functools", "operator", "_operator", "itertools", "types", "contextlib", "collections", "dataclasses", "inspect", "abc", "enum", "heapq", "bisect", "re", "string", "numbers", "weakref"}
+GAP_EXEMPT = {"inspect.getfullargspec", "inspect.signature", "functools.wraps", "logging.getLogger"}
+
 BUILTIN_EXT = {
     # C-implemented callables (types.BuiltinFunctionType) among the targets fx graphs carry
     "torch.nn.functional.linear", "torch.nn.functional.conv1d", "torch.nn.functional.gelu",
@@ -328,6 +333,10 @@ def call_ext(it: Any, f: ExtV, args: List[Any], kwargs: Dict[str, Any], node: An
             return Unknown(f"{name} of non-scalar")
     if name in ("typing.cast",):
         return args[1]
+    if name in ("inspect.getfullargspec", "inspect.signature") and args and isinstance(args[0], FuncV) and name.endswith("signature"):
+        args = [it.unwrap(args[0]), *args[1:]]  # inspect.signature follows __wrapped__
+    if name == "inspect.unwrap" and args:
+        return it.unwrap(args[0])
     if name == "inspect.getfullargspec" and args and isinstance(args[0], FuncV):
         fa = args[0].node.args
         names = [p.arg for p in fa.posonlyargs + fa.args]
@@ -339,7 +348,96 @@ def call_ext(it: Any, f: ExtV, args: List[Any], kwargs: Dict[str, Any], node: An
         fa = args[0].node.args
         names = [p.arg for p in fa.posonlyargs + fa.args] + ([fa.vararg.arg] if fa.vararg else []) + [p.arg for p in fa.kwonlyargs] + ([fa.kwarg.arg] if fa.kwarg else [])
         params = {n: Obj("inspect.Parameter", attrs={"name": n}, open_attrs=False) for n in names}
-        return Obj("inspect.Signature", attrs={"parameters": params}, open_attrs=False)
+        sig_ = Obj("inspect.Signature", attrs={"parameters": params}, open_attrs=False)
+        fv_ = args[0]
+
+        def _bind(it2, a, k, nd, partial_=False):
+            """Signature.bind: map the call's arguments to parameter names, without defaults."""
+            fa_ = fv_.node.args
+            pos = [p.arg for p in fa_.posonlyargs + fa_.args]
+            kwonly = [p.arg for p in fa_.kwonlyargs]
+            argsd: Dict[str, Any] = {}
+            if len(a) > len(pos) and not fa_.vararg:
+                it2.log("raise", nd, exc="TypeError")
+                return BOTTOM
+            for p_, v_ in zip(pos, a):
+                argsd[p_] = v_
+            if fa_.vararg and len(a) > len(pos):
+                argsd[fa_.vararg.arg] = tuple(a[len(pos):])
+            extra = {}
+            for k_, v_ in k.items():
+                if k_ in argsd or (k_ not in pos and k_ not in kwonly and not fa_.kwarg):
+                    it2.log("raise", nd, exc="TypeError")
+                    return BOTTOM
+                if k_ in pos or k_ in kwonly:
+                    argsd[k_] = v_
+                else:
+                    extra[k_] = v_
+            if extra:
+                argsd[fa_.kwarg.arg] = extra
+            n_def = len(fa_.defaults)
+            required = pos[: len(pos) - n_def] + [p_ for p_, d_ in zip(kwonly, fa_.kw_defaults) if d_ is None]
+            if not partial_ and any(r_ not in argsd for r_ in required):
+                it2.log("raise", nd, exc="TypeError")
+                return BOTTOM
+            # keep the signature's parameter order, as BoundArguments.arguments does
+            order = pos + ([fa_.vararg.arg] if fa_.vararg else []) + kwonly + ([fa_.kwarg.arg] if fa_.kwarg else [])
+            arguments = {n_: argsd[n_] for n_ in order if n_ in argsd}
+            ba = Obj("inspect.BoundArguments", attrs={"arguments": arguments, "signature": sig_}, open_attrs=False)
+
+            def _args():
+                out_ = []
+                for p_ in pos:
+                    if p_ not in arguments:
+                        break
+                    out_.append(arguments[p_])
+                else:
+                    if fa_.vararg:
+                        out_.extend(arguments.get(fa_.vararg.arg, ()))
+                return tuple(out_)
+
+            def _kwargs():
+                out_ = {}
+                missing = False
+                for p_ in pos:
+                    if p_ not in arguments:
+                        missing = True
+                    elif missing:
+                        out_[p_] = arguments[p_]
+                for p_ in kwonly:
+                    if p_ in arguments:
+                        out_[p_] = arguments[p_]
+                if fa_.kwarg:
+                    out_.update(arguments.get(fa_.kwarg.arg, {}))
+                return out_
+
+            def _apply_defaults(it3, a3, k3, nd3):
+                from .absint import Env
+
+                dpos = pos[len(pos) - n_def:] if n_def else []
+                newd = dict(arguments)
+                for p_, d_ in zip(dpos, fa_.defaults):
+                    if p_ not in newd:
+                        newd[p_] = it3.eval(d_, fv_.env or Env(None, {}), fv_.module)
+                for p_, d_ in zip(kwonly, fa_.kw_defaults):
+                    if p_ not in newd and d_ is not None:
+                        newd[p_] = it3.eval(d_, fv_.env or Env(None, {}), fv_.module)
+                if fa_.vararg and fa_.vararg.arg not in newd:
+                    newd[fa_.vararg.arg] = ()
+                if fa_.kwarg and fa_.kwarg.arg not in newd:
+                    newd[fa_.kwarg.arg] = {}
+                arguments.clear()
+                arguments.update({n_: newd[n_] for n_ in order if n_ in newd})
+                return None
+
+            ba.dyn["args"] = _args
+            ba.dyn["kwargs"] = _kwargs
+            ba.dyn["apply_defaults"] = lambda: A._Builtin("apply_defaults", _apply_defaults)
+            return ba
+
+        sig_.dyn["bind"] = lambda: A._Builtin("Signature.bind", _bind)
+        sig_.dyn["bind_partial"] = lambda: A._Builtin("Signature.bind_partial", lambda it2, a, k, nd: _bind(it2, a, k, nd, True))
+        return sig_
     if name == "inspect.getmembers" and args and hasattr(args[0], "info"):
         mi_ = args[0].info
         out = []
@@ -367,6 +465,22 @@ def call_ext(it: Any, f: ExtV, args: List[Any], kwargs: Dict[str, Any], node: An
         n = max(len(x) for x in seqs) if seqs else 0
         fill = kwargs.get("fillvalue")
         return [tuple(x[i] if i < len(x) else fill for x in seqs) for i in range(n)]
+    if name == "builtins.object" and not args:
+        return Obj("builtins.object", open_attrs=False)  # a fresh sentinel
+    if name in ("typing.get_args", "typing_extensions.get_args") and args:
+        if isinstance(args[0], Obj) and "__args__" in args[0].attrs:
+            return args[0].attrs["__args__"]
+        from .absint import Interp
+
+        Interp.note_gap(f"typing.get_args of {fmt(args[0])}")
+        return Unknown("typing.get_args")
+    if name in ("typing.TypeVar", "typing.NewType", "typing.ParamSpec"):
+        return ExtV(name + "()")
+    if name in ("typing.get_origin", "typing.get_type_hints", "typing.overload", "typing.final"):
+        from .absint import Interp
+
+        Interp.note_gap(f"unmodelled library call {name}")
+        return Unknown(name)
     if name.startswith("typing.") or name.startswith("collections.abc."):
         return ExtV(name)
     if name == "copy.deepcopy" and args and isinstance(args[0], (Obj, dict, list)):
@@ -405,7 +519,7 @@ def call_ext(it: Any, f: ExtV, args: List[Any], kwargs: Dict[str, Any], node: An
         return Obj("inspect.Signature", attrs={"parameters": {n: Obj("inspect.Parameter", attrs={"name": n}, open_attrs=False) for n, _ in sig}}, open_attrs=False)
     if name == "functools.partial" and args:
         fn_, pre_a, pre_k = args[0], list(args[1:]), dict(kwargs)
-        return A._Builtin("partial", lambda it2, a, k, nd, fn_=fn_, pre_a=pre_a, pre_k=pre_k: it2.call_function(fn_, pre_a + list(a), {**pre_k, **k}, nd))
+        return A.PartialV(fn_, pre_a, pre_k)
     if name == "itertools.chain":
         out_ = []
         for a_ in args:
@@ -416,6 +530,172 @@ def call_ext(it: Any, f: ExtV, args: List[Any], kwargs: Dict[str, Any], node: An
         from .values import OneShot
 
         return OneShot(out_)
+    # ---- operator module (function forms of the operators, and the three callable factories)
+    if name.startswith(("operator.", "_operator.")):
+        import ast as _ast
+
+        BIN = {"mul": _ast.Mult, "add": _ast.Add, "sub": _ast.Sub, "truediv": _ast.Div, "floordiv": _ast.FloorDiv, "mod": _ast.Mod, "pow": _ast.Pow, "matmul": _ast.MatMult}
+        CMP = {"eq": _ast.Eq, "ne": _ast.NotEq, "lt": _ast.Lt, "le": _ast.LtE, "gt": _ast.Gt, "ge": _ast.GtE, "is_": _ast.Is, "is_not": _ast.IsNot}
+        if short in BIN and len(args) == 2:
+            return it.binop(BIN[short](), args[0], args[1], node)
+        if short[:1] == "i" and short[1:] in BIN and len(args) == 2:
+            return it.binop(BIN[short[1:]](), args[0], args[1], node, inplace=True)
+        if short in CMP and len(args) == 2:
+            return it.compare(CMP[short](), args[0], args[1], node)
+        if short == "contains" and len(args) == 2:
+            return it.compare(_ast.In(), args[1], args[0], node)
+        if short == "neg" and len(args) == 1:
+            return it.unop(_ast.USub(), args[0], node)
+        if short == "not_" and len(args) == 1:
+            return it.unop(_ast.Not(), args[0], node)
+        if short == "truth" and len(args) == 1:
+            return it.truth(args[0], node)
+        if short == "getitem" and len(args) == 2:
+            return it.getitem(args[0], args[1], node)
+        if short == "call" and args:
+            return it.call_function(args[0], list(args[1:]), kwargs, node)
+        if short == "itemgetter" and args:
+            keys = list(args)
+            return A._Builtin("itemgetter", lambda it2, a, k, nd, keys=keys: it2.getitem(a[0], keys[0], nd) if len(keys) == 1 else tuple(it2.getitem(a[0], k_, nd) for k_ in keys))
+        if short == "attrgetter" and args and all(isinstance(a_, str) for a_ in args):
+            names_ = list(args)
+
+            def _ag(it2, a, k, nd, names_=names_):
+                def one(path):
+                    v_ = a[0]
+                    for part in path.split("."):
+                        v_ = it2.lift(lambda x_, part=part: it2.getattr(x_, part, nd), v_)
+                    return v_
+
+                return one(names_[0]) if len(names_) == 1 else tuple(one(n_) for n_ in names_)
+
+            return A._Builtin("attrgetter", _ag)
+        if short == "methodcaller" and args and isinstance(args[0], str):
+            mname, pre_a, pre_k = args[0], list(args[1:]), dict(kwargs)
+            return A._Builtin("methodcaller", lambda it2, a, k, nd: it2.call_function(it2.lift(lambda x_: it2.getattr(x_, mname, nd), a[0]), pre_a, pre_k, nd))
+    if name == "functools.reduce" and len(args) >= 2:
+        seq = it.concrete_iter(args[1])
+        if seq is None:
+            raise A.Unsupported("reduce over a non-concrete iterable")
+        seq = list(seq)
+        if len(args) > 2:
+            acc = args[2]
+        elif seq:
+            acc = seq.pop(0)
+        else:
+            it.log("raise", node, exc="TypeError")
+            return A.BOTTOM
+        for x_ in seq:
+            acc = it.call_function(args[0], [acc, x_], {}, node)
+            if acc is A.BOTTOM:
+                return acc
+        return acc
+    if name == "itertools.chain.from_iterable" and args:
+        outer = it.concrete_iter(args[0])
+        if outer is None:
+            raise A.Unsupported("chain.from_iterable over a non-concrete iterable")
+        out_ = []
+        for a_ in outer:
+            seq = it.concrete_iter(a_)
+            if seq is None:
+                raise A.Unsupported("chain.from_iterable over a non-concrete iterable")
+            out_ += seq
+        from .values import OneShot
+
+        return OneShot(out_)
+    if name == "itertools.repeat" and args:
+        from .values import OneShot, Repeat
+
+        n_ = args[1] if len(args) > 1 else kwargs.get("times")
+        if n_ is None:
+            return Repeat(args[0])
+        if isinstance(n_, int):
+            return OneShot([args[0]] * n_)
+    if name == "itertools.islice" and len(args) >= 2 and all(a_ is None or isinstance(a_, int) for a_ in args[1:]):
+        from .values import OneShot
+
+        seq = it.concrete_iter(args[0])
+        if seq is None:
+            raise A.Unsupported("islice over a non-concrete iterable")
+        return OneShot(seq[slice(*args[1:])])
+    if name == "itertools.filterfalse" and len(args) == 2:
+        from .values import OneShot
+
+        seq = it.concrete_iter(args[1])
+        if seq is None:
+            raise A.Unsupported("filterfalse over a non-concrete iterable")
+        out_ = []
+        for x_ in seq:
+            t_ = it.truth(x_ if args[0] is None else it.call_function(args[0], [x_], {}, node), node)
+            if t_ is False:
+                out_.append(x_)
+            elif t_ is not True:
+                from .values import Maybe
+
+                out_.append(Maybe(A._not(t_), x_))
+        return OneShot(out_)
+    if name == "itertools.starmap" and len(args) == 2:
+        from .values import OneShot
+
+        seq = it.concrete_iter(args[1])
+        if seq is None:
+            raise A.Unsupported("starmap over a non-concrete iterable")
+        return OneShot([it.call_function(args[0], list(it.concrete_iter(x_) or ()), {}, node) for x_ in seq])
+    if name == "itertools.accumulate" and args:
+        from .values import OneShot
+
+        seq = it.concrete_iter(args[0])
+        if seq is None:
+            raise A.Unsupported("accumulate over a non-concrete iterable")
+        import ast as _ast
+
+        fn_ = args[1] if len(args) > 1 else kwargs.get("func")
+        out_, acc = [], kwargs.get("initial")
+        if acc is not None:
+            out_.append(acc)
+        for x_ in seq:
+            acc = x_ if acc is None and not out_ else (it.call_function(fn_, [acc, x_], {}, node) if fn_ is not None else it.binop(_ast.Add(), acc, x_, node))
+            out_.append(acc)
+        return OneShot(out_)
+    if name == "itertools.product" and args and "repeat" not in kwargs:
+        import itertools as _it
+        from .values import OneShot
+
+        seqs = [it.concrete_iter(a_) for a_ in args]
+        if any(x_ is None for x_ in seqs):
+            raise A.Unsupported("product over a non-concrete iterable")
+        return OneShot(list(_it.product(*seqs)))
+    if name == "itertools.pairwise" and args:
+        from .values import OneShot
+
+        seq = it.concrete_iter(args[0])
+        if seq is None:
+            raise A.Unsupported("pairwise over a non-concrete iterable")
+        return OneShot(list(zip(seq, seq[1:])))
+    if name == "collections.ChainMap":
+        maps = list(args)
+        if all(isinstance(m_, dict) for m_ in maps):
+            merged: Dict[Any, Any] = {}
+            for m_ in reversed(maps):
+                merged.update(m_)
+            return merged  # read-only use: first mapping wins
+    if name in ("collections.OrderedDict", "collections.defaultdict") and not (name.endswith("defaultdict") and args and args[0] is not None):
+        from .builtins_model import BUILTINS
+
+        return BUILTINS["dict"].fn(it, args[1:] if name.endswith("defaultdict") else args, kwargs, node)
+    if name == "types.MethodType" and len(args) == 2:
+        return Bound(args[0], args[1])
+    if name == "dataclasses.fields" and args:
+        c_ = args[0].cls if isinstance(args[0], Obj) else args[0]
+        if isinstance(c_, A.ClassV):
+            import ast as _ast
+
+            return tuple(Obj("dataclasses.Field", attrs={"name": st.target.id}, open_attrs=False) for st in c_.node.body if isinstance(st, _ast.AnnAssign) and isinstance(st.target, _ast.Name))
+    if name in ("dataclasses.asdict", "dataclasses.astuple") and args and isinstance(args[0], Obj) and args[0].cls is not None:
+        import ast as _ast
+
+        fs_ = [st.target.id for st in args[0].cls.node.body if isinstance(st, _ast.AnnAssign) and isinstance(st.target, _ast.Name)]
+        return {f_: args[0].attrs.get(f_) for f_ in fs_} if name.endswith("asdict") else tuple(args[0].attrs.get(f_) for f_ in fs_)
     if name in ("operator.getitem", "_operator.getitem") and len(args) == 2 and not isinstance(args[0], (TV, Obj)):
         return it.getitem(args[0], args[1], node)
     if name in ("operator.mul", "operator.add", "operator.sub", "operator.truediv", "_operator.mul", "_operator.add") and len(args) == 2 and not any(isinstance(a_, (TV, Obj)) for a_ in args):
@@ -493,6 +773,10 @@ def call_ext(it: Any, f: ExtV, args: List[Any], kwargs: Dict[str, Any], node: An
         it.log("call", node, callee=name, args=args, kwargs=kwargs, bound=None, result=term)
         return Obj("torch.nn.Parameter", term=term)
     # ---- generic external call
+    if name.split(".")[0] in GAP_NAMESPACES and name not in GAP_EXEMPT and not any(isinstance(a, Unknown) for a in list(args) + list(kwargs.values())):
+        from .absint import Interp
+
+        Interp.note_gap(f"unmodelled library call {name}")
     bound = _bind_ext(name, args, kwargs)
     if bound is not None:
         targs = tuple((k, A._term(v)) for k, v in bound.items())
